@@ -230,6 +230,14 @@ func (b *Builder) Close() (*Bundle, error) {
 // and indirectly.
 func (b *Builder) resolvePending(ctx context.Context) (diags Diagnostics) {
 	b.mu.Lock()
+	if b.targetDir == "" {
+		// Another call gave the builder up - it failed, or closed the
+		// builder - while this one was waiting for its turn. Carrying on
+		// would create the package directories relative to the working
+		// directory.
+		b.mu.Unlock()
+		panic("call on closed or failed sourcebundle.Builder")
+	}
 	defer func() {
 		// If anything we do here generates any errors then the bundle
 		// directory is in an inconsistent state and must not be used
